@@ -8,11 +8,12 @@ word:
 
     hint  ::= c <cls> | N | un <n> hint* | uo <n> hint* | lit <n> lit* | an hint | li hint | se hint
             | di hint hint | tf <n> hint* | tv hint | ty hint | caE hint | caP <n> <cls>* hint
+            | any | ba <alias> | sq hint | mp hint hint
     lit   ::= i<int> | bT | bF | s<str> | n
     value ::= i<int> | bT | bF | f<nat> | s<str> | n | l <n> value* | t <n> value* | st <n> value*
             | fs <n> value* | d <n> (value value)* | k <cls> | fn <mand> <npos> <0|1> | o <cls>
 
-ops:  cfg <0|1> <0|1> <0|1> <0|1>   (unionOldExpanded literalTypeStrict tgOnly emptyOtherStrict)
+ops:  cfg <0|1> <0|1> <0|1> <0|1>   (unionOldExpanded literalTypeStrict tgOnly argsFix)
       cmp hint hint | adm hint value | conn (hint|-) (hint|-) <0|1> | recv (hint|-) (hint|-) <0|1>
       gate <via> (hint|-) (hint|-) <senderStrict> <receiverStrict>      via ::= oc | ic | ri | ro
  histories (state: numbered channels, links, values; reset by `case`):
@@ -31,6 +32,12 @@ def parseCls : String → Option Cls
   | "dict" => some .dict | "tuple" => some .tuple | "type" => some .type | "NoneType" => some .noneT
   | "Callable" => some .callable | "function" => some .func
   | "A" => some .uA | "B" => some .uB | "C" => some .uC | "D" => some .uD
+  | "Sequence" => some .sequence | "Mapping" => some .mapping
+  | _ => none
+
+def parseAlias : String → Option Alias
+  | "list" => some .list | "set" => some .set | "dict" => some .dict | "tuple" => some .tuple
+  | "type" => some .type | "Callable" => some .callable | "Sequence" => some .seq | "Mapping" => some .mapping
   | _ => none
 
 def parseLit (w : String) : Option Lit :=
@@ -64,6 +71,13 @@ def parseLitTok : P Lit
 partial def parseHint : P Hint
   | "c" :: w :: ws => (parseCls w).map fun c => (.cls c, ws)
   | "N" :: ws => some (.noneVal, ws)
+  | "any" :: ws => some (.any, ws)
+  | "ba" :: w :: ws => (parseAlias w).map fun g => (.bare g, ws)
+  | "sq" :: ws => do let (h, ws) ← parseHint ws; pure (.seqOf h, ws)
+  | "mp" :: ws => do
+    let (k, ws) ← parseHint ws
+    let (v, ws) ← parseHint ws
+    pure (.mapOf k v, ws)
   | "un" :: n :: ws => do
     let (hs, ws) ← parseMany parseHint (← n.toNat?) ws
     pure (.unionNew hs, ws)
